@@ -745,7 +745,7 @@ func (c03) Run(u fw.Unit) fw.Result {
 func (c03) Describe(tier string) fw.Description {
 	return fw.Description{
 		Level: "model_checking",
-		Rule: "bounded-exhaustive enumeration on the real engine (CountingWindow(N) batches, deterministic schedule): all value sequences of length N over {-2,0,1,2.5,NULL,missing} for 16 aggregate columns, percentile(p in 0,.25,.5,.95,1)/nth_value, expression arguments (v+w, v*2, (v-1)*2, d.x) over all pairs of values per row; every batch runs on an instance shared with all other batches in forward and reverse enumeration order (state leak between consecutive batches), all ordered pairs of batches for N<=2 on fresh instances, and two interleaved groups in one tumbling window for all pairs of per-group sequences; all pairs of values over the 12 Go numeric types (int8..uint64, float32, float64) for every aggregate; all sequences of length 3..4 over values that are large relative to their spread (1e9+1, 1e9+2, 1e9+4, 1e9+8, -1e9; tolerance 1e-6); compared with ref.Agg; a case = one batch; non-trivial = a result row was delivered and compared",
+		Rule: "(text: count / collect / first_value / last_value / deduplicate / merge_agg over all sequences of length <= 4/5 of a text column with values, an explicit NULL and rows without the column) bounded-exhaustive enumeration on the real engine (CountingWindow(N) batches, deterministic schedule): all value sequences of length N over {-2,0,1,2.5,NULL,missing} for 16 aggregate columns, percentile(p in 0,.25,.5,.95,1)/nth_value, expression arguments (v+w, v*2, (v-1)*2, d.x) over all pairs of values per row; every batch runs on an instance shared with all other batches in forward and reverse enumeration order (state leak between consecutive batches), all ordered pairs of batches for N<=2 on fresh instances, and two interleaved groups in one tumbling window for all pairs of per-group sequences; all pairs of values over the 12 Go numeric types (int8..uint64, float32, float64) for every aggregate; all sequences of length 3..4 over values that are large relative to their spread (1e9+1, 1e9+2, 1e9+4, 1e9+8, -1e9; tolerance 1e-6); compared with ref.Agg; a case = one batch; non-trivial = a result row was delivered and compared",
 		Bounds:      map[string]any{"N": map[string]int{"quick": 4, "thorough": 6}, "alphabet": []string{"-2", "0", "1", "2.5", "NULL", "missing"}},
 		Assumptions: []string{"percentile: only the order-statistic bracket and p=0/1 are asserted (the docs fix no interpolation rule)", "stddevs/vars are compared only for >=2 usable values; median/percentile/stddev/var over no usable input are not asserted (property fixes NULL only for sum/avg/min/max)", "nth_value with NULL/missing rows: both readings (n-th row / n-th usable value) accepted", "floats compared with relative tolerance 1e-9"},
 	}
